@@ -97,8 +97,10 @@ func genC04(r *rng, tier string) *Case {
 	}
 	sim, _ := genSim(r, false, false)
 	c := &Case{Class: kind + "/" + class, Sim: sim,
-		Script: &Script{Gens: []GenCfg{g}, Setup: []Op{{Kind: "gen", TextB: text, ArgNames: []string{"a", "b"}}}, NFn: 1}}
-	c.X.Bound = g.NoOpt
+		Script: &Script{Gens: []GenCfg{g}, Setup: []Op{{Kind: "gen", TextB: text, ArgNames: []string{"a", "b"}, Entry: pick(r, 0, 0, 0, 0, 1, 2, 3)}}, NFn: 1}}
+	// The linear bound applies with the optimizer off, and also with it on when the text has no call,
+	// closure or function definition: folding operators over literals costs no more than parsing them.
+	c.X.Bound = g.NoOpt || !(bytes.Contains(text, []byte("(")) || bytes.Contains(text, []byte("->")) || bytes.Contains(text, []byte("func")))
 	return c
 }
 
@@ -220,12 +222,12 @@ func genC06(r *rng, tier string) *Case {
 	costs, ck := genCosts(r, nIds, costStages, p.N)
 	if len(p.Stages) > 0 && p.Src == "numbers" && (forceShared || r.chance(0.15)) {
 		// a let-bound prefix used by several goroutines of the same evaluation at once
-		p.Shared = r.rangeInt(1, 9)
+		p.Shared = r.rangeInt(1, 12)
 		p.Split = r.rangeInt(1, len(p.Stages))
 		if p.N > 300 {
 			p.N = pick(r, 13, 30, 100, 300)
 		}
-		if p.Shared == 2 || p.Shared == 6 {
+		if p.Shared == 2 || p.Shared == 6 || p.Shared == 8 || p.Shared == 10 {
 			// the shared list is iterated once per outer element: keep the product small
 			if p.N > 30 {
 				p.N = pick(r, 13, 20, 30)
@@ -239,7 +241,7 @@ func genC06(r *rng, tier string) *Case {
 				}
 			}
 		}
-		if p.Shared == 2 || p.Shared == 8 {
+		if p.Shared == 2 || p.Shared == 8 || p.Shared == 10 {
 			for len(costs) <= sharedCostID {
 				costs = append(costs, CostProf{})
 			}
@@ -260,7 +262,23 @@ func genC06(r *rng, tier string) *Case {
 		}
 	}
 	hasFail := false
-	if full && r.chance(0.15) {
+	if p.Shared >= 10 && r.chance(0.7) {
+		// the shared list fails while it is materialised (caught inside the closures that use it)
+		var cands []int
+		for i := range p.Stages[:p.Split] {
+			if hasClosure(p.Stages[i].Op) {
+				cands = append(cands, i)
+			}
+		}
+		if len(cands) > 0 {
+			s := pick(r, cands...)
+			p.Stages[s].Fail = true
+			host.Fails = make([]Match, max(nIds, len(costs)))
+			host.Fails[s] = Match{Kind: "ge", A: r.rangeInt(0, p.N)}
+			hasFail = true
+		}
+	}
+	if full && !hasFail && r.chance(0.15) {
 		// a failing element somewhere in a closure-calling stage
 		var cands []int
 		for i := range p.Stages {
@@ -761,6 +779,13 @@ func genC08(r *rng, tier string) *Case {
 	case "present", "indexWhere", "contains":
 		p.Term = Stage{Op: term}
 		p.K = need // output element k has value k+offset
+		if term == "contains" && second == "" {
+			p.Term.N = pick(r, 0, 0, 0, 1, 1, 3, 4)
+			if p.Term.N >= 3 {
+				need = offset // an empty list of items is contained in everything: one look decides
+				k = 0
+			}
+		}
 	case "single":
 		p.Term = Stage{Op: "single"}
 		need = offset + 1 // has to see a second element to decide
@@ -823,6 +848,9 @@ func genC08(r *rng, tier string) *Case {
 		case "present", "indexWhere", "contains":
 			p.K = val(kk)
 			need = val(kk)
+			if term == "contains" && p.Term.N >= 3 {
+				need = offset
+			}
 		case "topsize":
 			p.Term = Stage{Op: "topsize", N: kk + 1}
 			need = val(kk + 1)
@@ -922,8 +950,9 @@ func genC12(r *rng, tier string) *Case {
 			rep = pick(r, 5, 20, 100)
 		}
 		ops := make([]Op, rep)
+		entry := pick(r, 0, 0, 0, 0, 1, 2, 3)
 		for i := range ops {
-			ops[i] = Op{Kind: "gen", TextB: text, ArgNames: []string{"a", "b"}}
+			ops[i] = Op{Kind: "gen", TextB: text, ArgNames: []string{"a", "b"}, Entry: entry}
 		}
 		return &Case{Class: "parse/" + class, Sim: sim, Script: &Script{Gens: []GenCfg{g}, Setup: ops, NFn: 1}}
 	case c < 38:
